@@ -137,6 +137,21 @@ class HGen:
                 out.append((version, [], ops, 30))
         return out
 
+    def reply_burst(self, n):
+        """a caller is waiting; the reader finds n stale replies and then the matching one all buffered and routes
+        them back to back; before that, n unsolicited replies while nobody waits"""
+        out = []
+        for version in ("1.6", "2.0.1"):
+            ops = [("burst", [json.dumps([3, "u-%d" % i, {}]) for i in range(n)]),
+                   ("start", 0, "b0", "Heartbeat", {}, False, False, True),
+                   ("burst", [json.dumps([3 if i % 3 else 4, "x-%d" % i, {}] if i % 3 else [4, "x-%d" % i, "GenericError", "", {}])
+                              for i in range(n)] + [json.dumps([3, "b0", {"currentTime": "t"}])]),
+                   ("tick", 1),
+                   ("start", 1, "b1", "Heartbeat", {}, False, False, True),
+                   ("inbound", json.dumps([3, "b1", {"currentTime": "t2"}]))]
+            out.append((version, [], ops, 30))
+        return out
+
     def error_codes(self):
         """one caller per OCPP error code (suppression off, then on): the matching CALLERROR must come back as
         exactly that error class resp. None; an undefined code as the unknown-code error"""
@@ -162,7 +177,7 @@ class HGen:
             timeout = self.rng.choice([30, 2, 10])
             hs.append(self.history(self.rng.choice([6, 12, 25, 40]) if self.tier == "quick" else self.rng.choice([10, 40, 120]), timeout))
         hs.append(self.stale_flood(300 if self.tier == "quick" else 3000))
-        return self.skip_overlap() + self.error_codes() + hs
+        return self.skip_overlap() + self.error_codes() + self.reply_burst(1100 if self.tier == "quick" else 2600) + hs
 
 
 def run_histories(rep, hs, tag, prop_id, oracle, view, shard_size=8, async_validation=False):
@@ -173,11 +188,13 @@ def run_histories(rep, hs, tag, prop_id, oracle, view, shard_size=8, async_valid
         rep.add("ops", len(ops))
         for o in ops:
             rep.add("op:" + o[0])
+            if o[0] == "burst":
+                rep.add("burst-frames", len(o[1]))
         for k, v in res["outcomes"].items():
             rep.add("outcome:" + v[0])
         replay = {"kind": "history", "version": version, "routes": routes, "ops": ops, "timeout": timeout,
                   "async_validation": async_validation, "observation": res}
-        for key, what in oracle(version, routes, ops, timeout, res):
+        for key, what in oracle(version, routes, H.expand_ops(ops), timeout, res):
             rep.violation("%s:%s" % (prop_id, key), what, replay)
         t = H.chcase(version, routes, ops, timeout, res)
         if t is None:
